@@ -697,11 +697,20 @@ func init() {
 					origin = "computed"
 					lines = append(lines, "sv := input()")
 					stdin = c.s + "\n"
-					if r.Intn(2) == 0 {
+					val := c.s
+					switch r.Intn(4) {
+					case 0:
 						exprs[j] = "sv"
-					} else {
+					case 1:
 						exprs[j] = `sv + ""`
+					case 2: // a blank-free literal in front of the value: one argument, whatever the value holds
+						exprs[j] = `"--opt=" + sv`
+						val = "--opt=" + c.s
+					default:
+						exprs[j] = `sv + "=x" + itoa(7)`
+						val = c.s + "=x7"
 					}
+					c.s = val
 				} else {
 					exprs[j] = tsLit(c.s)
 				}
